@@ -113,7 +113,7 @@ def get_case(res, case):
         sent_stores = []
         for k in range(n):
             while r.random() < 0.35:
-                script.append(('pending', None))
+                script.append(('pending', k))
             sop = r.choice([svc.CT, svc.MR])
             inst = '1.2.826.99.%d.%d' % (i, k)
             ds = pydicom.Dataset()
@@ -123,8 +123,9 @@ def get_case(res, case):
             mid = r.choice([0, 1, k, 0xFFFF, r.randrange(65536)])
             script.append(('store', (sop, inst, mid, dsutils.encode(ds, True, True))))
             sent_stores.append((store_ctx[sop], mid, sop, inst))
-        while r.random() < 0.3:
-            script.append(('pending', None))
+        # progress reported after the last sub-operation (remaining 0) still is not the final response
+        while r.random() < 0.4:
+            script.append(('pending', n))
         final_status = r.choice([0x0000, 0xB000, 0xA702, 0xFE00])
         script.append(('final', final_status))
         script.append(('after-final', None))      # must never be consumed
@@ -132,8 +133,10 @@ def get_case(res, case):
             if kind == 'pending':
                 stub.script.append((svc.request_message('CGetRSPMessage', {
                     R.TAG_AFFECTED_SOP_CLASS: svc.GET, R.TAG_COMMAND_FIELD: 0x8010,
-                    R.TAG_MESSAGE_ID_RSP: get_id, R.TAG_STATUS: 0xFF00, R.TAG_REMAINING: 1,
-                    R.TAG_COMPLETED: 0, R.TAG_FAILED: 0, R.TAG_WARNING: 0}), get_ctx))
+                    R.TAG_MESSAGE_ID_RSP: get_id, R.TAG_STATUS: 0xFF00, R.TAG_REMAINING: n - arg,
+                    R.TAG_COMPLETED: arg, R.TAG_FAILED: 0, R.TAG_WARNING: 0}), get_ctx))
+                if arg == n:
+                    res.count('sim.progress-after-last-suboperation')
             elif kind == 'store':
                 sop, inst, mid, data = arg
                 rq = svc.request_message('CStoreRQMessage', {
@@ -251,6 +254,8 @@ def move_case(res, case):
 
             def gen():
                 for k in range(n):
+                    if fault == 'generator-gives-up' and k == give_up_at:
+                        raise exceptions.EventHandlingError('the archive went away')
                     d = pydicom.Dataset()
                     d.SOPClassUID = svc.CT if k % 3 else svc.MR
                     d.SOPInstanceUID = instances[k]
@@ -260,9 +265,15 @@ def move_case(res, case):
                     gen())
 
     # faults of the sub-association: the destination refuses it, or never confirms its release
-    fault = r.choice([None] * 5 + ['refuse', 'silent-release']) if n else None
+    # ... accepts it without the context of one instance's class, stops answering in the middle;
+    # or the application's own instance generator gives up half-way
+    fault = r.choice([None] * 6 + ['refuse', 'silent-release', 'silent-store', 'class-not-accepted',
+                                   'generator-gives-up']) if n else None
+    give_up_at = r.randrange(n) if n else 0
     peer = svc.CooperativePeer(list(outcomes), refuse=(fault == 'refuse'),
-                               silent_on_release=(fault == 'silent-release'))
+                               silent_on_release=(fault == 'silent-release'),
+                               refuse_classes=[svc.MR] if fault == 'class-not-accepted' else (),
+                               silent_on_store=give_up_at if fault == 'silent-store' else None)
     case = dict(case, fault=fault)
     res.distinct.add('move-fault|%s|%d' % (fault, min(n, 3)))
     with stubdul.stubbed() as Stub:
@@ -310,7 +321,7 @@ def move_case(res, case):
             res.violation('move-success-without-suboperations', 'C19.move',
                           '%s: final status Success although no sub-operation could be performed' % where,
                           case)
-        if fault == 'refuse':
+        if fault != 'silent-release':
             return
         error = None
     if error is not None:
